@@ -395,6 +395,14 @@ def _run(prop, tier, seed, backends, limited):
                 pre = tuple(x for s_ in h for x in (("submit", s_), ("drain",)))
                 sc = sc + [pre + tuple(("wsquery", fs, "feed" if n % 3 else "other") for n, fs in enumerate(sample[b:b + 120]))
                            for b in range(0, len(sample), 120)]
+        if prop == "C12" and pal == palettes[0]:
+            # answers during which the engine fails transiently at the k-th fetch of rows: cut short perhaps, never longer than
+            # the limit and never an event twice
+            rf = random.Random(seed + 11)
+            fsample = [r for r in reqs if len(r) == 1 and r[0].get("limit") in (1, 2, 3, 4)]
+            fsample = [fsample[k] for k in sorted(rf.sample(range(len(fsample)), min(len(fsample), 150 if tier == "quick" else 1500)))]
+            pre = tuple(x for s_ in histories[0] for x in (("submit", s_), ("drain",)))
+            sc = sc + [pre + tuple(("fquery", fs, 1 + n % 4) for n, fs in enumerate(fsample[b:b + 75])) for b in range(0, len(fsample), 75)]
         for backend in backends:
             jobs.append({"uni": uni, "backend": backend, "scripts": sc, "palette": pal, "max_limit": max_limit})
     import os
